@@ -66,7 +66,34 @@ def gen_meta(rng: core.Rng, tier: str) -> dict:
         nc_ = 3
         acts = [["sub", 0, 1], ["sub", 1, 2]] + acts[:2]
         dead = [[1, False, 1]] + dead[:1]
-    return {"np": np_, "nc": nc_, "acts": acts, "prefix": prefix, "dead_sources": dead}
+    # a company of the assertions still has a graph edge TO a collected, unswept company (created before the assertions)
+    dead_t = [[rng.next() % nc_, rng.choice(["reassign", "direct"])] for _ in range(rng.randint(1, 2))] if rng.chance(0.3) else []
+    return {"np": np_, "nc": nc_, "acts": acts, "prefix": prefix, "dead_sources": dead, "dead_targets": dead_t}
+
+
+def dead_target_class(m) -> bool:
+    """K_dead_target: a company cs[j] has an edge to a collected, unswept company and an assertion makes something a
+    sub-organisation of cs[j]: the transitive inference outgoing from the new source walks to the dead target."""
+    js = {j % m["nc"] for j, _ in m.get("dead_targets", ())}
+    return any(kind == "sub" and j in js for kind, i, j in m["acts"])
+
+
+def dead_target_match(m, r) -> bool:
+    """narrow: same log; the 'after' run equals the fresh run except for additional dead entries (-2) in sub_organization_of
+    lists (None appended by the inference that followed the edge to the dead node)"""
+    if "fatal" in r or r["fresh"]["log"] != r["after"]["log"] or r["fresh"]["rels"] != r["after"]["rels"]:
+        return False
+    np_ = m["np"]
+    ok = False
+    for k, (f, a) in enumerate(zip(r["fresh"]["fields"], r["after"]["fields"])):
+        if f == a:
+            continue
+        if k < np_:
+            return False
+        if f[0] != a[0] or sorted(x for x in a[1] if x != -2) != f[1] or -2 not in a[1]:
+            return False
+        ok = True
+    return ok
 
 
 def dead_source_class(m) -> bool:
@@ -140,6 +167,9 @@ def run(tier: str, seed: int, replay=None) -> int:
     diff_fields = 0
     for m, r in zip(metas, mres):
         rep.count("meta:" + json.dumps(m), True)
+        if "fatal" not in r and r["fresh"] != r["after"] and dead_target_class(m) and dead_target_match(m, r):
+            inst["C14-c"] = inst.get("C14-c", 0) + 1
+            continue
         if "fatal" in r or r["fresh"] != r["after"]:
             nbad += 1
             if nbad <= 3:
@@ -170,7 +200,7 @@ def run(tier: str, seed: int, replay=None) -> int:
         for f, m, r in zip(mf, mw, mr):
             rep.count("kf:" + f.fid, True)
             same = "fatal" not in r and r["fresh"] == r["after"]
-            if f.kind == "open" and not same and dead_source_class(m) and dead_source_match(m, r):
+            if f.kind == "open" and not same and dead_target_class(m) and dead_target_match(m, r):
                 rep.known(f)
             elif f.kind == "open" and same:
                 rep.note(f"finding {f.fid}: witness no longer fails (appears repaired)")
